@@ -334,7 +334,17 @@ class ImplRun:
     def __init__(self, dp=5, style=0):
         from gscrib import GCodeBuilder
         self.rec = Recorder()
-        self.g = GCodeBuilder(decimal_places=dp, line_endings="\n")
+        # the same configuration through the three accepted forms: keywords, a dict, a GConfig object
+        if style == 1:
+            self.g = GCodeBuilder({"decimal_places": dp, "line_endings": "\n"})
+        elif style == 2:
+            from gscrib.config import GConfig
+            self.g = GCodeBuilder(GConfig(decimal_places=dp, line_endings="\n"))
+        elif style == 3:
+            from gscrib.config import GConfig
+            self.g = GCodeBuilder(GConfig(decimal_places=5, line_endings="os"), decimal_places=dp, line_endings="\n")
+        else:
+            self.g = GCodeBuilder(decimal_places=dp, line_endings="\n")
         self.g.add_writer(self.rec.writer)
         self.ctx = []      # open mode context managers
         self.hooks = {}
